@@ -12,9 +12,15 @@ import (
 	"strings"
 	"time"
 
+	"github.com/pingcap/kvproto/pkg/metapb"
+	"github.com/pingcap/kvproto/pkg/pdpb"
 	"github.com/tikv/pd/pkg/errs"
 	"github.com/tikv/pd/pkg/typeutil"
+	"github.com/tikv/pd/server/cluster"
+	"github.com/tikv/pd/server/config"
+	"github.com/tikv/pd/server/core"
 	"github.com/tikv/pd/server/id"
+	"github.com/tikv/pd/server/kv"
 	"go.etcd.io/etcd/clientv3"
 
 	"verifharness/internal/etcdh"
@@ -29,6 +35,37 @@ type inst struct {
 	client  *clientv3.Client
 	gate    *etcdh.GateKV
 	pending chan string // result of a parked call
+	rc      *cluster.RaftCluster // split handling (cluster_worker.go) drawing from this allocator
+}
+
+// splitRegion is the region the split requests name: known to every cluster of this harness.
+func splitRegion(peers int) *metapb.Region {
+	r := &metapb.Region{Id: 900000001, RegionEpoch: &metapb.RegionEpoch{ConfVer: 1, Version: 1}}
+	for p := 0; p < peers; p++ {
+		r.Peers = append(r.Peers, &metapb.Peer{Id: uint64(900000002 + p), StoreId: uint64(p + 1)})
+	}
+	return r
+}
+
+// newCluster builds a RaftCluster (not started: no coordinator, no background loops) whose id source is `a`.
+func newCluster(a id.Allocator) *cluster.RaftCluster {
+	rc := cluster.NewRaftCluster(context.Background(), "/verif/cluster", 1, nil, nil, nil)
+	bc := core.NewBasicCluster()
+	r := splitRegion(3)
+	bc.PutRegion(core.NewRegionInfo(r, r.Peers[0]))
+	rc.InitCluster(a, config.NewPersistOptions(config.NewConfig()), core.NewStorage(kv.NewMemoryKV()), bc)
+	return rc
+}
+
+func flatten(ids []*pdpb.SplitID) string {
+	var parts []string
+	for _, s := range ids {
+		parts = append(parts, strconv.FormatUint(s.GetNewRegionId(), 10))
+		for _, p := range s.GetNewPeerIds() {
+			parts = append(parts, strconv.FormatUint(p, 10))
+		}
+	}
+	return "ok " + strings.Join(parts, " ")
 }
 
 type world struct {
@@ -112,8 +149,8 @@ func (w *world) exec(op string) string {
 		c := etcdh.NewClient(w.e.Cfg)
 		g := etcdh.Wrap(c)
 		m := atoi(f[1])
-		w.insts = append(w.insts, &inst{member: m, client: c, gate: g,
-			alloc: id.NewAllocator(c, w.root, fmt.Sprintf("m%d", m))})
+		a := id.NewAllocator(c, w.root, fmt.Sprintf("m%d", m))
+		w.insts = append(w.insts, &inst{member: m, client: c, gate: g, alloc: a, rc: newCluster(a)})
 		return "ok"
 	case len(f) == 2 && f[0] == "leader":
 		k := path.Join(w.root, "leader")
@@ -173,6 +210,26 @@ func (w *world) exec(op string) string {
 		r := <-in.pending
 		in.pending = nil
 		return r
+	case len(f) == 3 && f[0] == "split": // instance, peers: pdpb AskSplit
+		in := get(f[1])
+		if in == nil || in.pending != nil {
+			return bad
+		}
+		resp, err := in.rc.HandleAskSplit(&pdpb.AskSplitRequest{Region: splitRegion(atoi(f[2]))})
+		if err != nil {
+			return "fail"
+		}
+		return flatten([]*pdpb.SplitID{{NewRegionId: resp.GetNewRegionId(), NewPeerIds: resp.GetNewPeerIds()}})
+	case len(f) == 4 && f[0] == "bsplit": // instance, split count, peers: pdpb AskBatchSplit
+		in := get(f[1])
+		if in == nil || in.pending != nil {
+			return bad
+		}
+		resp, err := in.rc.HandleAskBatchSplit(&pdpb.AskBatchSplitRequest{Region: splitRegion(atoi(f[3])), SplitCount: uint32(atoi(f[2]))})
+		if err != nil {
+			return "fail"
+		}
+		return flatten(resp.GetIds())
 	case len(f) == 1 && f[0] == "stored":
 		return fmt.Sprintf("ok %d", w.stored())
 	}
@@ -213,7 +270,7 @@ func gen(w *world, t *trace.W, r *rng.R, maxOps int) {
 				op = fmt.Sprintf("leader %d", r.Range(0, members))
 			}
 		} else {
-			switch r.Pick(50, 6, 14, 4, 12, 6, 4, 4) {
+			switch r.Pick(50, 6, 14, 4, 12, 6, 4, 4, 5, 7) {
 			case 0:
 				op = fmt.Sprintf("alloc %d %s", i, f)
 			case 1:
@@ -232,6 +289,10 @@ func gen(w *world, t *trace.W, r *rng.R, maxOps int) {
 				}
 			case 6:
 				op = "stored"
+			case 8:
+				op = fmt.Sprintf("split %d %d", i, r.Range(1, 5))
+			case 9:
+				op = fmt.Sprintf("bsplit %d %d %d", i, r.Range(1, 6), r.Range(1, 5))
 			case 7:
 				// burst: exhaust most of a window quickly so that rebases happen often
 				for b, nb := 0, []int{40, 40, 40, 40, 40, 40, 400, 1001}[r.Intn(8)]; b < nb; b++ {
